@@ -123,8 +123,8 @@ fn hyphenate_impl(hyphenater: &Hyphenator, list: &[ds::Horizontal]) -> Vec<ds::H
                     out.push(elem.clone());
                 }
                 Action::Abort => {
-                    i += 1;
-                    out.push(elem.clone());
+                    // Don't consume the element: if it is a glue node, the word after it
+                    // must still be tried (TeX only looks ahead from the glue node, TeX.2021.894).
                     break None;
                 }
             }
